@@ -410,10 +410,12 @@ impl MetricsInner {
 
     #[inline]
     fn get(&self, typ: &MetricType) -> u64 {
-        let mut total = 0;
+        let mut total = 0u64;
         if let Some(v) = self.all.get(typ) {
+            // the stripes hold two's-complement deltas (see the cost decrease in
+            // `SampledLFU::update`), so their sum wraps by design
             v.iter()
-                .for_each(|atom| total += atom.load(Ordering::SeqCst));
+                .for_each(|atom| total = total.wrapping_add(atom.load(Ordering::SeqCst)));
         }
         total
     }
